@@ -90,6 +90,14 @@ def run(ctx):
             if w:
                 writes.append(n)
         raises_ = [n for n in cfg.nodes if n.kind == "raise"]
+        # calls of private helpers of the builder that can raise a rejection count as raise points too
+        for n in cfg.nodes:
+            if n.kind in ("stmt", "cond") and n.ast is not None:
+                for c in walk_no_nested(n.ast):
+                    if isinstance(c, ast.Call) and isinstance(c.func, ast.Attribute) and isinstance(c.func.value, ast.Name) and c.func.value.id == "self":
+                        for t in cg.site_for(m, c).targets:
+                            if t.cls is bld and t.name.startswith("_") and q.raises(t):
+                                raises_.append(n)
         bad = None
         for w in writes:
             after = cfg.reach([w.id])
@@ -127,8 +135,27 @@ def run(ctx):
                  "same base fall-through and the same merge order; the format mirrors every builder field", reference=26)
     shared = sorted(n for n in fmt.methods if (n.startswith("has_") or n.startswith("get_")) and n in bld.methods)
     ctx.require(len(shared) >= 12, "too few shared query methods (%d)" % len(shared))
+    # correspondence builder field -> format field: format.__init__ derives F = builder.Q(...); the builder's own
+    # field behind Q is the counterpart of F (so the two classes may name their private fields differently)
+    b2f = {}
+    for n in walk_no_nested(init.node):
+        if isinstance(n, ast.Assign) and len(n.targets) == 1 and is_self_attr(n.targets[0]) and isinstance(n.value, ast.Call) or \
+                (isinstance(n, ast.Assign) and len(n.targets) == 1 and is_self_attr(n.targets[0]) and isinstance(n.value, ast.Call) is False and any(isinstance(x, ast.Call) for x in walk_no_nested(n.value))):
+            calls_ = [x for x in walk_no_nested(n.value) if isinstance(x, ast.Call) and isinstance(x.func, ast.Attribute) and isinstance(x.func.value, ast.Name) and x.func.value.id == "builder"]
+            for c in calls_:
+                qm = bld.methods.get(c.func.attr)
+                if qm is None:
+                    continue
+                own = [x for x in query_summary(ctx, qm)["reads"]]
+                if len(own) == 1:
+                    b2f[own[0]] = n.targets[0].attr
+
+    def mapped(summary):
+        out = dict(summary)
+        out["reads"] = sorted(b2f.get(x, x) for x in summary["reads"])
+        return out
     for name in shared:
-        a, b = query_summary(ctx, fmt.methods[name]), query_summary(ctx, bld.methods[name])
+        a, b = query_summary(ctx, fmt.methods[name]), mapped(query_summary(ctx, bld.methods[name]))
         diffs = [k for k in a if a[k] != b[k]]
         if not diffs:
             r.ok("%s: reads %s, base %s, order %s" % (name, ",".join(a["reads"]) or "-", ",".join(a["base_calls"]) or "-", a["order"]))
@@ -138,7 +165,7 @@ def run(ctx):
                    "ArgsFormat.%s and ArgsFormatBuilder.%s disagree on %s: format %s, builder %s - the finished format answers this query "
                    "differently from the builder that produced it" % (name, name, d, a[d], b[d]))
     binit = bld.methods.get("__init__")
-    bf = {t.attr for n in walk_no_nested(binit.node) if isinstance(n, ast.Assign) for t in n.targets if is_self_attr(t)}
+    bf = {b2f.get(t.attr, t.attr) for n in walk_no_nested(binit.node) if isinstance(n, ast.Assign) for t in n.targets if is_self_attr(t)}
     ff = {t.attr for n in walk_no_nested(init.node) if isinstance(n, ast.Assign) for t in n.targets if is_self_attr(t)}
     for f in sorted(bf | ff):
         if f in bf and f in ff:
@@ -171,6 +198,18 @@ def run(ctx):
             if isinstance(n, ast.Assign) and isinstance(n.targets[0], ast.Subscript) and is_self_attr(n.targets[0].value):
                 inserted.append((n, norm(n.targets[0].slice)))
         checked = {}
+        # private helpers that reject a colliding name: h(name) raises when self.has_X(name)
+        for c in q.calls(m):
+            if isinstance(c.func, ast.Attribute) and isinstance(c.func.value, ast.Name) and c.func.value.id == "self" and c.args:
+                for t in cg.site_for(m, c).targets:
+                    if t.cls is bld and t.name.startswith("_") and q.param_names(t):
+                        hp = q.param_names(t)[0]
+                        hcfg = ctx.cfg(t)
+                        for e in hcfg.nodes:
+                            if e.kind == "T" and isinstance(e.ast, ast.Call) and isinstance(e.ast.func, ast.Attribute) and e.ast.func.attr in ("has_option", "has_command_option") \
+                                    and e.ast.args and isinstance(e.ast.args[0], ast.Name) and e.ast.args[0].id == hp and hcfg.inevitably_raises(e.id):
+                                # the helper call must precede every insertion
+                                checked.setdefault(norm(c.args[0]), set()).add(e.ast.func.attr)
         for n in cfg.nodes:
             if n.kind == "raise":
                 for e in cfg.nodes:
@@ -204,13 +243,16 @@ def run(ctx):
     if req and opt_t and all(any(cfg.dominates(t.id, c.id) for t in req) for c in opt_t):
         r.ok("add_argument: optional-argument test applies to required arguments only")
     # the two markers are set from the element's own predicates
-    for marker, pred in (("_has_multi_valued_arg", "is_multi_valued"), ("_hash_optional_arg", "is_optional")):
-        sets = [n for n in cfg.nodes if n.kind == "stmt" and isinstance(n.ast, ast.Assign) and any(is_self_attr(t, marker) for t in n.ast.targets)]
+    for query, pred in (("has_multi_valued_argument", "is_multi_valued"), ("has_optional_argument", "is_optional")):
+        # the marker = the builder's own field behind the query
+        qm = bld.methods.get(query)
+        own = query_summary(ctx, qm)["reads"] if qm is not None else []
+        sets = [n for n in cfg.nodes if n.kind == "stmt" and isinstance(n.ast, ast.Assign) and any(is_self_attr(t) and t.attr in own for t in n.ast.targets)]
         ok = sets and all(guarded_by(cfg, s, lambda e: isinstance(e, ast.Call) and isinstance(e.func, ast.Attribute) and e.func.attr == pred, polarity=True) is not None for s in sets)
         if ok:
-            r.ok("add_argument: %s set under %s()" % (marker, pred))
+            r.ok("add_argument: the marker behind %s() is set under %s()" % (query, pred))
         else:
-            r.fail(m, m.node, "marker " + marker, "add_argument does not record %s from argument.%s(): a later ordering check cannot fire" % (marker, pred))
+            r.fail(m, m.node, "marker of " + query, "add_argument does not record the marker that %s() reads from argument.%s(): a later ordering check cannot fire" % (query, pred))
 
     # ---------------------------------------------------------------- R7
     r = ctx.rule("C06-R7", "RESET", "a replacement (set_*) starts from scratch: it resets every field its add_* "
